@@ -659,7 +659,7 @@ func vC18OrderLess(a, b string, orderBit func(i int) byte) (less, comparable boo
 func TestVerif_C18_regions(t *testing.T) {
 	vh.Run(t, vh.Spec{Prop: "C18", Unit: "regions", Quick: 3000, Thorough: 200000, CostMs: 2,
 		Rule: "RegionsFromPeers + AssignKeysToRegions vs. their definitions on the same PRNG plans as alloc_composed (r in 1..20, covered prefix 0-9 bits or any prefix of a single peer's key, 1-140 uniform/clustered peers, 1-80 keys, some outside the covered prefix); one case in 8 also assigns keys to a hand-made non-covering prefix-free region list. Non-trivial = at least 2 regions of which one is deeper than the covered prefix + 1 bit; distinct by (r, covered prefix, region prefixes, sizes)",
-		Clauses: []string{"regions-peers-partition", "regions-prefix-partition", "regions-min-size", "regions-minimal", "regions-order", "regions-trie-keys", "keys-one-region", "keys-trie-entries"}},
+		Clauses: []string{"regions-peers-partition", "regions-prefix-partition", "regions-min-size", "regions-minimal", "regions-order", "regions-trie-keys", "keys-one-region", "keys-nearest-fallback", "keys-trie-entries"}},
 		func(c *vh.Case) {
 			f := vC18NewFailer(c)
 			p := vC18GenPlan(c)
